@@ -59,7 +59,7 @@ def failatomic(run, fx):
     masked = [w for w in writes if w['k'] == 'CompoundAssignOperator' and w['op'] in ('&=', '|=')]
     for w in masked:
         fs = [f[:3] for f in dom.facts_at(fn, w['i'])]
-        need = {'range': lambda f: f[0] == 'val' and f[1] == '<=' and 'maxVal()' in f[2],
+        need = {'range': lambda f: f[0] == fn.f['params'][0]['n'] and f[1] == '<=' and ('maxVal()' in f[2] or f[2] == 'this->m_max'),
                 'face': lambda f: f[0] == 'this->m_face' and f[1] == '!=' and f[2] == '0'}
         missing = [k for k, p in need.items() if not any(p(f) for f in fs)]
         ident = dom.must_pass(fn, fn.entry, fn.block_of[w['i']], lambda f: ('m_pMap' in f[0] and f[1] == '==' and (f[2] == '0' or 'theFeatureMap()' in f[2])))
